@@ -277,8 +277,8 @@ call which either sets that modifier on `h`, or invokes an operation on `h` (whi
 up, whatever its outcome), or creates `h` as a clone (a clone starts without modifiers).
 
 `consumes r` says whether invoking `r` uses the modifiers up.  The law of the property is
-`consumes = fun _ => true` (`expectedWire`, `pendingAfter`).  The same definitions with another
-`consumes` describe weaker laws (used in Props/C02 to say exactly what the code does instead). -/
+`consumes = fun _ => true` (`expectedWire`, `pendingAfter`).  The same definitions with
+`consumesUnlessPanic` describe what happens in scripts which contain a panicking call. -/
 
 /-- does call `c` end the life of whatever was pending on `h`? -/
 def resets (consumes : Request → Bool) (h : Nat) : HandleCall → Bool
@@ -339,26 +339,24 @@ def expectedWire (calls : List HandleCall) : List Sent := expectedFrom (fun _ =>
 /-- what is still pending on handle `h` after the whole script -/
 def pendingAfter (calls : List HandleCall) (h : Nat) : Handle := pendingHandle (fun _ => true) h calls.reverse
 
-/-- the weaker law the code is measured against where the law above fails: an operation which is
-refused locally leaves the modifiers pending (they go to the next operation which is not refused) -/
-def consumesUnlessRefused (r : Request) : Bool := !mustReject r
+/-- An `Exop` without a name violates the caller contract of `extended` ("when sending an extended
+request, name must not be None"); the call panics.  Such calls are outside the law: it is stated for
+scripts without them (`NoNamelessExop`). -/
+def panics : Request → Bool
+  | .extended none _ => true
+  | _ => false
 
-/-- the class of scripts on which both readings coincide: whenever an operation is refused locally,
-nothing is pending on its handle.  `pre` = calls, most recent first. -/
-def NoModifierAtRefusal : List HandleCall → Prop
-  | [] => True
-  | c :: older =>
-    NoModifierAtRefusal older ∧
-    (match c with
-     | .op h r => mustReject r = true → pendingHandle (fun _ => true) h older = {}
-     | _ => True)
+/-- the reading which also covers scripts with such calls (a caller that catches the unwind): the
+panicking call leaves the modifiers pending; everything else uses them up -/
+def consumesUnlessPanic (r : Request) : Bool := !panics r
 
-instance decNoModifierAtRefusal : (pre : List HandleCall) → Decidable (NoModifierAtRefusal pre)
-  | [] => isTrue trivial
-  | c :: older =>
-    have : Decidable (NoModifierAtRefusal older) := decNoModifierAtRefusal older
-    by
-      unfold NoModifierAtRefusal
-      cases c <;> infer_instance
+def namedExop : HandleCall → Bool
+  | .op _ r => !panics r
+  | _ => true
+
+/-- every `extended` call of the script carries a named `Exop` -/
+def NoNamelessExop (calls : List HandleCall) : Prop := ∀ c ∈ calls, namedExop c = true
+
+instance (calls : List HandleCall) : Decidable (NoNamelessExop calls) := by unfold NoNamelessExop; infer_instance
 
 end Ldap3V.Spec
